@@ -50,6 +50,7 @@ WORKLOADS = {
     "stream": ("w_stream.cpp", ()),
     "any_object": ("w_erase.cpp", ()),
     "any_unique": ("w_erase.cpp", ()),
+    "traits": ("w_traits.cpp", ()),
     "anysnd_sim": ("w_anysnd.cpp", ()),
     "anysnd_inplace": ("w_anysnd.cpp", ()),
     "coro": ("w_coro.cpp", ()),
@@ -416,16 +417,25 @@ PROPS = {
             B("w_event.cpp", "event_v2", quick=4, thorough=60, oracles=["c16.context"]),
             B("w_event.cpp", "event_v1", quick=4, thorough=60, oracles=["c16.context"]),
             B("w_event.cpp", "pass", quick=4, thorough=60, oracles=["c16.context"]),
+            B("w_traits.cpp", "traits", quick=8, thorough=120, oracles=["c11.", "c01."] + RT_ALL),
+            B("w_traits.cpp", "traits", cfg="S17r", quick=4, thorough=60, oracles=["c11.", "c01."] + RT_ALL),
         ],
         level_text=("Context oracles evaluated on the executions of five workloads, with gates/leaves completed by foreign threads: inside "
                     "task<> the thread after every co_await (gate, nested task, schedule) is the thread of the task's current scheduler, which "
                     "changes only at co_await schedule(s), and the task completes on its scheduler; via(ctx) delivers on the scheduler's "
                     "thread; v2 async_mutex, v1/v2 async_manual_reset_event and async_pass value completions arrive on the waiter's "
-                    "scheduler thread even when set/unlock/accept happen on another thread."),
-        level_note=("Not decided: the static-trait clauses (blocking always_inline / always, sends_done=false) are only checked where a "
-                    "workload happens to assert them (reduce_stream never done); there is no trait-vs-behaviour matrix; on() start context "
-                    "is implied by the C12 scheduler query oracle only; typed_via and with_scheduler_affinity outside task<> are not driven."),
-        real=["task<> scheduler affinity", "via", "v2 async_mutex, v1/v2 events, async_pass completion hops"],
+                    "scheduler thread even when set/unlock/accept happen on another thread. "
+                    "Static-trait clauses (w_traits): ~150 typed, un-erased expressions - 16 unary adaptors x 4 leaf flavours (always_inline with and "
+                    "without done, maybe, never), 7 binary adaptors (let_value/error/done, sequence, finally, when_all, stop_when) x 6 flavour pairs, "
+                    "schedule()/schedule_after() of inline, trampoline, single_thread_context, static_thread_pool and timed_single_thread_context, "
+                    "via/on over a real context - whose leaves' own claims are true by construction; one case per run with drawn outcomes and a stop "
+                    "request before start, racing or absent. Checked per run: sender_traits<>::blocking vs the value of the blocking() CPO (may refine, "
+                    "never contradict); always_inline => the receiver is completed inside start() on the starting thread; always => before start() "
+                    "returns; sends_done=false => never done. A broken `never` is only counted (the property as given does not constrain it)."),
+        level_note=("on() start context is implied by the C12 scheduler query oracle only; with_scheduler_affinity outside task<> is not driven; "
+                    "is_always_scheduler_affine is checked for the event/mutex/pass/task senders only."),
+        real=["task<> scheduler affinity", "via", "v2 async_mutex, v1/v2 events, async_pass completion hops",
+              "static traits and blocking() customisations of 23 adaptors and 5 schedulers (typed expressions)"],
         stub=["pthread layer (usim)"],
     ),
     "C20": dict(
